@@ -42,7 +42,12 @@ for f in (['/verif/work/selftest_all.log'] if os.path.exists('/verif/work/selfte
             m=re.match(r'(KILLED|WEAK-CONTRACT) (mutants/\S+?)[: ]',l)
             if m: mut.append((m.group(2),m.group(1), 'replayed' if ('solver=sat' in l and 'no-failing-input-found' not in l.split('solver=sat')[1][:30]) else ''))
 killed=sum(1 for m in mut if m[1]=='KILLED'); weak=[m[0] for m in mut if m[1]!='KILLED']
-mtxt=f"\nHand-made mutants (`./selftest`): {killed} of {len(mut)} killed"+(f"; surviving (weak contract): {', '.join(weak)}" if weak else "")+".\n"
+rep=0
+for f in ['/verif/work/selftest_all.log']:
+    if os.path.exists(f):
+        for l in open(f):
+            if l.startswith('KILLED') and re.search(r'solver=sat(?! no-failing)',l): rep+=1
+mtxt=f"\nHand-made mutants (`./selftest`): {killed} of {len(mut)} killed; for {rep} of them a counterexample was replayed on the real code by a generated test (the listing shows only the first three violations of each)"+(f"; surviving (weak contract): {', '.join(weak)}" if weak else "")+".\n"
 s=open('/verif/DESIGN.md').read()
 block="<!-- SEEDTABLE-BEGIN -->\n"+"\n".join(out)+"\n"+summary+mtxt+"<!-- SEEDTABLE-END -->"
 if '@@SEEDTABLE@@' in s:
